@@ -1088,3 +1088,63 @@ Section GoodNames.
     reflexivity.
   Qed.
 End GoodNames.
+
+(* ------------------------------------------------------------------ front end (round 8) *)
+Lemma cat_front_good_inv fr : cat_front_goodb fr = true -> fr_obj fr = FNew /\ fr_arg fr = ArgRules.
+Proof. unfold cat_front_goodb. destruct (fr_obj fr), (fr_arg fr); intros H; try discriminate; auto. Qed.
+
+Lemma reaches_trailing_single v : reaches_trailing [v] = v.
+Proof. unfold reaches_trailing. cbn. apply andb_true_r. Qed.
+
+(* a good front end hands the caller's rule text to a new object, whatever was requested before *)
+Lemma front_rules_good fr : cat_front_goodb fr = true -> forall earlier rules, front_rules fr earlier rules = rules.
+Proof.
+  intros G earlier rules. destruct (cat_front_good_inv fr G) as [Ho Ha].
+  unfold front_rules, front_obtain. rewrite Ho, Ha. reflexivity.
+Qed.
+
+Lemma front_reached_is_direct cfg fr : cat_front_goodb fr = true -> forall earlier rules cat t,
+  front_reached cfg fr earlier rules cat t = category_filter cfg rules cat t.
+Proof. intros G earlier rules cat t. unfold front_reached. rewrite reaches_trailing_single, (front_rules_good fr G). reflexivity. Qed.
+
+Lemma front_answers_is_direct cfg fr : cat_front_goodb fr = true -> forall earlier rules qs,
+  front_answers cfg fr earlier rules qs = object_answers cfg rules qs.
+Proof.
+  intros G earlier rules qs. unfold front_answers. rewrite (front_rules_good fr G).
+  rewrite <- (map_id (object_answers cfg rules qs)) at 2. apply map_ext. intros v. apply reaches_trailing_single.
+Qed.
+
+Lemma front_reached_spec cfg fr : cfg_goodb cfg = true -> cat_front_goodb fr = true -> forall earlier rules cat t,
+  front_reached cfg fr earlier rules cat t = spec_verdict rules cat t.
+Proof. intros C G earlier rules cat t. rewrite (front_reached_is_direct cfg fr G). apply model_is_spec, C. Qed.
+
+Lemma front_answers_spec cfg fr : cfg_goodb cfg = true -> cat_front_goodb fr = true -> forall earlier rules qs,
+  front_answers cfg fr earlier rules qs = spec_answers rules qs.
+Proof. intros C G earlier rules qs. rewrite (front_answers_is_direct cfg fr G). apply object_answers_spec, C. Qed.
+
+Lemma front_oracle_holds cfg fr : cfg_goodb cfg = true -> cat_front_goodb fr = true -> forall earlier rules cat t,
+  prop_c15_b rules cat t (front_reached cfg fr earlier rules cat t) = true.
+Proof. intros C G earlier rules cat t. rewrite (front_reached_is_direct cfg fr G). apply oracle_holds, C. Qed.
+
+Lemma front_seq_oracle_holds cfg fr : cfg_goodb cfg = true -> cat_front_goodb fr = true -> forall earlier rules qs,
+  prop_c15_seq_b rules qs (front_answers cfg fr earlier rules qs) = true.
+Proof. intros C G earlier rules qs. rewrite (front_answers_is_direct cfg fr G). apply seq_oracle_holds, C. Qed.
+
+(* broken front ends.  "a=false" asked about the category "a": must be dropped *)
+Definition fx_a_false : str := [97;61;102;97;108;115;101].
+Definition fx_b_false : str := [98;61;102;97;108;115;101].
+Definition dropping_front : cat_front := {| fr_obj := FNew; fr_arg := ArgEmpty |}.
+Definition shared_front : cat_front := {| fr_obj := FSharedStatic; fr_arg := ArgRules |}.
+(* the rule text is not handed on: every message passes *)
+Lemma dropping_front_refuted : exists rules cat t,
+  front_reached std_cfg dropping_front [] rules cat t <> spec_verdict rules cat t.
+Proof. exists fx_a_false, [97], Debug. vm_compute. discriminate. Qed.
+(* one shared static object: right for the first request of a process, wrong for a later one with other rules *)
+Lemma shared_front_refuted :
+  (forall rules cat t, front_reached std_cfg shared_front [] rules cat t = spec_verdict rules cat t)
+  /\ exists earlier rules cat t, front_reached std_cfg shared_front earlier rules cat t <> spec_verdict rules cat t.
+Proof.
+  split.
+  - intros rules cat t. unfold front_reached. rewrite reaches_trailing_single. cbn. apply model_is_spec_std.
+  - exists [fx_b_false], fx_a_false, [97], Debug. vm_compute. discriminate.
+Qed.
